@@ -126,7 +126,8 @@ class Check(Collector):
                 v["known"] = True
             else:
                 real.append(v)
-        rep_dir = os.path.join(VERIF, "evidence", "reports")
+        ev_dir = os.environ.get("VERIF_EVIDENCE_DIR") or os.path.join(VERIF, "evidence")  # scratch runs (seeded copies) write elsewhere
+        rep_dir = os.path.join(ev_dir, "reports")
         os.makedirs(rep_dir, exist_ok=True)
         for v in real:
             fname = re.sub(r"[^A-Za-z0-9_.-]+", "_", "%s-%s" % (self.pid, v["key"]))[:150] + ".json"
@@ -178,8 +179,8 @@ class Check(Collector):
             "wall_s": round(wall, 3),
             "violations": len(real),
         }
-        os.makedirs(os.path.join(VERIF, "evidence"), exist_ok=True)
-        with open(os.path.join(VERIF, "evidence", "%s.json" % self.pid), "w") as fh:
+        os.makedirs(ev_dir, exist_ok=True)
+        with open(os.path.join(ev_dir, "%s.json" % self.pid), "w") as fh:
             json.dump(ev, fh, indent=1, default=str)
         for rid, r in sorted(self.rules.items()):
             insts = r["instances"]
